@@ -71,6 +71,11 @@ type Violation struct {
 	What     string          `json:"what"` // human readable: expected vs observed
 	Case     json.RawMessage `json:"case"` // replayable case
 	Count    int64           `json:"count"`
+	// Alt is the same case together with the context it was found in (the inputs that preceded it in
+	// the same process, the batch it was part of). The driver replays Case first; only if that does
+	// not fail in a fresh process — the failure depends on earlier calls — is Alt replayed and, if it
+	// fails twice, written as the replay file.
+	Alt json.RawMessage `json:"alt,omitempty"`
 }
 
 // Result is what a worker (or the merge of all workers) measured.
@@ -116,6 +121,7 @@ type W struct {
 	Unit      int
 	Replaying bool
 	journal   *os.File // per-case journal (crash attribution)
+	alt       func() any
 }
 
 // JournalCase records the case about to run when the worker was started in
@@ -137,6 +143,9 @@ func NewW(prop, tier string, seed int64, deadline time.Time) *W {
 	w.res.Counters = map[string]int64{}
 	return w
 }
+
+// Scratch returns a worker whose results are thrown away (replay of the calls that precede a case).
+func (w *W) Scratch() *W { return NewW(w.Prop, w.Tier, w.Seed, w.deadline) }
 
 // Eval counts one executed case.
 func (w *W) Eval() { w.res.Evaluations++; w.curSeq.Add(1) }
@@ -224,6 +233,7 @@ func (w *W) Fail(key, what string, cs any) {
 		if v.Count <= 64 {
 			if raw, err := json.Marshal(cs); err == nil && len(raw) < len(v.Case) {
 				v.Case, v.What = raw, what
+				v.Alt = w.altCase()
 			}
 		}
 		return
@@ -232,7 +242,25 @@ func (w *W) Fail(key, what string, cs any) {
 	if err != nil {
 		raw, _ = json.Marshal(fmt.Sprintf("%#v", cs))
 	}
-	w.vio[key] = &Violation{Property: w.Prop, Key: key, What: what, Case: raw, Count: 1}
+	w.vio[key] = &Violation{Property: w.Prop, Key: key, What: what, Case: raw, Count: 1, Alt: w.altCase()}
+}
+
+// AltCase, when set by a check, supplies the case-with-context stored beside the case of a violation.
+func (w *W) SetAltCase(f func() any) { w.alt = f }
+
+func (w *W) altCase() json.RawMessage {
+	if w.alt == nil {
+		return nil
+	}
+	v := w.alt()
+	if v == nil {
+		return nil
+	}
+	raw, err := json.Marshal(v)
+	if err != nil {
+		return nil
+	}
+	return raw
 }
 
 func (w *W) Failed() bool { return len(w.vio) > 0 }
